@@ -277,6 +277,104 @@ class CFG:
                     stack.append(m)
         return seen
 
+    def reachable_with_flags(self, start: Iterable[int], labels_excluded: Iterable[str] = ()) -> set[int]:
+        """Like reachable(), but remembers locals that were last assigned a literal constant and takes only the feasible edge of a
+        test that reads nothing but such a local (`if ok:`, `if not ok:`, `if err is None:`, `if status == 0:`).  Enough to follow
+        a status flag set in an exception handler to the return it selects."""
+        lx = set(labels_excluded)
+
+        def truth(test: ast.AST, env: dict[str, object]) -> bool | None:
+            if isinstance(test, ast.UnaryOp) and isinstance(test.op, ast.Not):
+                r = truth(test.operand, env)
+                return None if r is None else not r
+            if isinstance(test, ast.Name) and test.id in env:
+                return bool(env[test.id])
+            if isinstance(test, ast.Compare) and len(test.ops) == 1 and isinstance(test.left, ast.Name) and test.left.id in env \
+                    and isinstance(test.comparators[0], ast.Constant):
+                a, b = env[test.left.id], test.comparators[0].value
+                op = test.ops[0]
+                if isinstance(op, ast.Is):
+                    return a is b if (a is None or b is None or isinstance(a, bool) or isinstance(b, bool)) else a == b
+                if isinstance(op, ast.IsNot):
+                    return not (a is b if (a is None or b is None or isinstance(a, bool) or isinstance(b, bool)) else a == b)
+                if isinstance(op, ast.Eq):
+                    return a == b
+                if isinstance(op, ast.NotEq):
+                    return a != b
+            return None
+
+        seen: set[tuple[int, tuple]] = set()
+        out: set[int] = set()
+        stack: list[tuple[int, tuple]] = [(s_, ()) for s_ in start]
+        while stack:
+            n, envt = stack.pop()
+            if (n, envt) in seen:
+                continue
+            seen.add((n, envt))
+            out.add(n)
+            env = dict(envt)
+            node = self.nodes[n]
+            a = node.ast
+            only: str | None = None
+            if node.kind == "test" and a is not None:
+                r = truth(a, env)
+                if r is not None:
+                    only = "T" if r else "F"
+            elif node.kind == "stmt" and a is not None:
+                if isinstance(a, ast.Assign) and len(a.targets) == 1 and isinstance(a.targets[0], ast.Name):
+                    if isinstance(a.value, ast.Constant):
+                        env[a.targets[0].id] = a.value.value
+                    else:
+                        env.pop(a.targets[0].id, None)
+                elif isinstance(a, (ast.AugAssign, ast.AnnAssign)) and isinstance(a.target, ast.Name):
+                    if isinstance(a, ast.AnnAssign) and isinstance(a.value, ast.Constant):
+                        env[a.target.id] = a.value.value
+                    else:
+                        env.pop(a.target.id, None)
+                else:
+                    for x in ast.walk(a):
+                        if isinstance(x, ast.Name) and isinstance(x.ctx, ast.Store):
+                            env.pop(x.id, None)
+            elif a is not None and node.kind in ("for", "handler"):
+                for x in ast.walk(a.target if node.kind == "for" else a):  # type: ignore[attr-defined]
+                    if isinstance(x, ast.Name) and isinstance(getattr(x, "ctx", None), ast.Store):
+                        env.pop(x.id, None)
+            nenv = tuple(sorted(env.items(), key=lambda kv: kv[0]))
+            for m, lab in self.succ[n]:
+                if lab in lx:
+                    continue
+                if only is not None and lab in ("T", "F") and lab != only:
+                    continue
+                stack.append((m, nenv))
+        return out
+
+    def values_at_returns(self, start: int, var: str, labels_excluded: Iterable[str] = ()) -> dict[int, set[ast.AST | None]]:
+        """for every `return` reachable from `start`: the right-hand sides of the assignments to `var` that can be the last one
+        executed on the way there (None = none since `start`)"""
+        lx = set(labels_excluded)
+        out: dict[int, set[ast.AST | None]] = {}
+        seen: set[tuple[int, int]] = set()
+        stack: list[tuple[int, ast.AST | None]] = [(start, None)]
+        while stack:
+            n, last = stack.pop()
+            key = (n, id(last))
+            if key in seen:
+                continue
+            seen.add(key)
+            node = self.nodes[n]
+            a = node.ast
+            if node.kind == "stmt" and a is not None:
+                if isinstance(a, ast.Assign) and any(isinstance(t, ast.Name) and t.id == var for t in a.targets):
+                    last = a.value
+                elif isinstance(a, ast.AnnAssign) and isinstance(a.target, ast.Name) and a.target.id == var and a.value is not None:
+                    last = a.value
+                elif isinstance(a, ast.Return):
+                    out.setdefault(n, set()).add(last)
+            for m, lab in self.succ[n]:
+                if lab not in lx:
+                    stack.append((m, last))
+        return out
+
     def every_path_passes(self, src: int, dst: int, through: Iterable[int], labels_excluded: Iterable[str] = ()) -> bool:
         """True iff every path src -> dst contains a node of `through` (strictly between or equal to src)."""
         through = set(through)
